@@ -550,6 +550,9 @@ def run_bzr_query(base, basis, wtsnap, sel, excl, variant="strict"):
         # ids of the change stream that sit where another entry used to be (path vacated by a move / removal)
         vac = sorted(i for i in S if any(j != i and bp.get(j) is not None and bp.get(j) == wp.get(i) and wp.get(j) != bp.get(j)
                                          for j in set(basis)))
+        # ... and ids of the stream displaced by another entry of the stream (their basis path is taken over)
+        vac = sorted(set(vac) | {i for i in S if bp.get(i) is not None and any(
+            j != i and wp.get(j) == bp.get(i) and wtsnap.get(j, {}).get("kind") != "missing" for j in S)})
         wt = WorkingTree.open(d)
         revs1, tip1 = repo_state(wt)
         wt1 = snap_wt(wt)
@@ -617,7 +620,7 @@ def run_bzr_query(base, basis, wtsnap, sel, excl, variant="strict"):
                 continue
             if not justified(i, recorded, must | presel, basis, wtsnap, eff, bp, wp):
                 fam = None
-                if i in vac:
+                if i in vac and not any(j != i and wp.get(j) == bp.get(i) for j in S):
                     fam = "dirstate-unselected-entry-at-vacated-path"
                 counters.append("bzr:unselected-committed")
                 viol.append(("O2 the pending change of unselected id %s (basis path %r, working path %r) was committed with "
